@@ -510,6 +510,12 @@ fn monitor_case(rep: &mut Report, cs: &CaseSpec, rng: &mut Rng) {
         let r = guard(|| lib.call(pr, x0, k));
         let j = (count(site) - c0) as usize;
         rep.note_add("calls.optimize(adam,sgd)", 1.0);
+        if k >= 1 && j == 0 && r.is_ok() {
+            // every call with a budget executes at least one step: no tick means the step hook is not in the
+            // loop any more (instrumentation removed by a rewrite), and the trajectory cannot be reconstructed
+            rep.inconclusive(format!("{}: optimize ran with maxsteps {} but the step hook never ticked", regime, k));
+            return;
+        }
         let got = match r {
             Ok(v) => {
                 rep.check("C10.optimize.no_panic", regime, true, || json!(null));
